@@ -6,6 +6,8 @@ usage: try_seed.py <name> <worktree> <property> [more properties to run]
 """
 import json, os, shutil, subprocess, sys, time
 
+IN_WT = "--in-worktree" in sys.argv     # run the checks against the patched worktree instead of /repo
+sys.argv = [a for a in sys.argv if a != "--in-worktree"]
 name, wt, prop = sys.argv[1], sys.argv[2], sys.argv[3]
 run_props = sys.argv[3:]
 VERIF = "/verif"
@@ -42,17 +44,26 @@ stubs = os.path.join(wt, "demo_stubs")
 if os.path.isdir(stubs):
     shutil.copytree(stubs, os.path.join(dest, "demo_stubs"), dirs_exist_ok=True)
 # 2. run our checks on /repo with the patch applied, then undo
-rc, out = sh(f"git -C /repo apply {patch}")
-assert rc == 0, out
+if not IN_WT:
+    rc, out = sh(f"git -C /repo apply {patch}")
+    assert rc == 0, out
+    env = ""
+else:
+    # (used while a long background run is reading /repo)  the worktree already has the patch applied
+    env = f"WHEATLEY_REPO={wt} VERIF_EVIDENCE_DIR=/tmp/seed_ev/{name} "
+meta["checks_ran_against"] = "the patched scratch worktree (WHEATLEY_REPO)" if IN_WT else "/repo with the patch applied"
 try:
     for p in run_props:
         t0 = time.time()
-        rc, out = sh(f"/venv/bin/python harness/check.py --property {p} --tier quick", cwd=VERIF)
+        rc, out = sh(f"{env}/venv/bin/python harness/check.py --property {p} --tier quick", cwd=VERIF)
         lines = [l for l in out.splitlines() if l.startswith(("VIOLATION", "KNOWN", "BROKEN", p))]
         print(p, "rc", rc, lines)
         meta["ran"].append({"check": p, "rc": rc, "lines": lines, "wall_s": round(time.time() - t0, 1)})
 finally:
-    sh("git -C /repo checkout -- .")
+    if not IN_WT:
+        sh("git -C /repo checkout -- .")
+    else:
+        shutil.rmtree(f"/tmp/seed_ev/{name}", ignore_errors=True)
 meta["detected_by"] = [r["check"] for r in meta["ran"] if r["rc"] == 1]
 old = {}
 mp = os.path.join(dest, "meta.json")
